@@ -278,6 +278,12 @@ class Runner(IOOpsMixin):
             self.stats["faults_planned"] += len(faults)
             rec, injected = self._attempt(client, i, op, attempt, faults, tracer, in_segment)
             self.stats["attempts"] += 1
+            if injected and any(f.get("abandon") for f in faults):
+                # the client gives this (read-only) operation up and goes on with its program
+                rec["abandoned"] = True
+                self.probe("abandoned_after_" + injected)
+                self.seams.log("abandoned", op["op"], injected)
+                break
             if injected and attempt < len(all_faults):
                 # the client's program is "do X; if it blew up, do X again": f planned faults allow f+1 attempts
                 self.stats["retries"] += 1
@@ -452,7 +458,7 @@ class Runner(IOOpsMixin):
         self.cover("system", cfg["system"])
         self.cover("dt_class", cfg["dt_class"])
         if "O-inv" in self.oracles:
-            self._check_inv_calc(client, i, h)
+            self._check_inv_calc(client, i, h, light=bool(op.get("inv_light")))
         if "O-round" in self.oracles:
             self._check_round_calc(client, i, h)
         keys = sorted("%d%d" % k.v for k in calc.modulus_keys)
@@ -506,7 +512,15 @@ class Runner(IOOpsMixin):
 
     def op_calc_read(self, client, i, op):
         h = self._get_handle(client, op)
-        kind, val = self._resolve(h, op["base"], op["name"])
+        try:
+            kind, val = self._resolve(h, op["base"], op["name"])
+        except Exception as e:
+            if ("O-inv" in self.oracles and op["base"] == "tv" and not self._injected_now()
+                    and (op["name"].startswith("modulus_") or op["name"] in ("bulk_modulus_voigt", "bulk_modulus_reuss", "bulk_modulus_voigt_reuss_hill", "shear_modulus_voigt",
+                                                                             "shear_modulus_reuss", "shear_modulus_voigt_reuss_hill", "primary_velocities", "secondary_velocities"))):
+                self.verdict("O-inv", "C12", client, i, f"volume_base.{op['name']} of a completed calculation is not available: {type(e).__name__}: {norm_msg(e, self.root)[:120]}",
+                             config=self._cfg_summary(h.world))
+            raise
         if kind == "json":
             d = ["json", len(val), sha(val.encode())]
         else:
@@ -622,16 +636,23 @@ class Runner(IOOpsMixin):
         else:
             plan = [(spec["base"], list(spec["list"]))]
         expected = self._expected_files(client, h, plan) if ("O-disk" in self.oracles or "O-frame" in self.oracles or True) else None
-        if spec is None:
-            h.calc.write_output()
-        elif spec["base"] == "both":
-            lst = copy.deepcopy(spec["list"])       # ONE list object handed to both bases, as a user script (or a YAML anchor) would
-            h.calc.pressure_base.write_variables(lst)
-            h.calc.volume_base.write_variables(lst)
-            self.probe("one_list_object_for_both_bases")
-        else:
-            obj = h.calc.pressure_base if spec["base"] == "pressure_base" else h.calc.volume_base
-            obj.write_variables(spec["list"])
+        try:
+            if spec is None:
+                h.calc.write_output()
+            elif spec["base"] == "both":
+                lst = copy.deepcopy(spec["list"])       # ONE list object handed to both bases, as a user script (or a YAML anchor) would
+                h.calc.pressure_base.write_variables(lst)
+                h.calc.volume_base.write_variables(lst)
+                self.probe("one_list_object_for_both_bases")
+            else:
+                obj = h.calc.pressure_base if spec["base"] == "pressure_base" else h.calc.volume_base
+                obj.write_variables(spec["list"])
+        except Exception as e:
+            if "O-disk" in self.oracles and not self._injected_now() and self._all_entries_valid(plan) and not self._pressures_bracketed(h):
+                self.probe("write_failed_requested_pressures_not_bracketed")     # outside the precondition "requested pressures inside the computed range"
+            elif "O-disk" in self.oracles and not self._injected_now() and self._all_entries_valid(plan):
+                self.verdict("O-disk", "C15", client, i, f"writing the requested outputs failed although no fault was injected in this attempt: {type(e).__name__}: {norm_msg(e, self.root)[:160]}")
+            raise
         self._post_write(client, i, h, expected)
         cwd = self.cwd_rel[client]
         return {"_expected_files": [cwd + "/" + e["fname"] for e in expected], "n_expected": len(expected)}
@@ -664,6 +685,30 @@ class Runner(IOOpsMixin):
             self._post_write(client, i, h, expected)
             res = {"_expected_files": [cwd + "/" + e["fname"] for e in expected], "n_expected": len(expected)}
         return res
+
+    def _pressures_bracketed(self, h):
+        """the precondition 'requested pressures inside the computed range', evaluated from the calculator's own pressure field: at every
+        temperature row (guard rows included) every requested pressure lies inside the field with the two nodes of margin the four-point
+        conversion stencil needs"""
+        try:
+            p = numpy.asarray(h.calc.volume_base.pressures, dtype=float)
+            want = numpy.asarray(h.calc.pressure_base.p_array, dtype=float)
+            ps = numpy.sort(p, axis=1)
+            return bool(numpy.isfinite(p).all() and (ps[:, 2] <= want.min()).all() and (want.max() <= ps[:, -3]).all()
+                        and ((numpy.diff(p, axis=1) > 0).all() or (numpy.diff(p, axis=1) < 0).all()))
+        except Exception:
+            return False
+
+    def _all_entries_valid(self, plan):
+        """every entry names a documented keyword that exists on the base it is requested for"""
+        by_kw = {kw: r for r in W.rules()["rules"] for kw in r["keywords"]}
+        for base_name, entries in plan:
+            base = "tp" if base_name == "pressure_base" else "tv"
+            for e in entries:
+                r = by_kw.get(e if isinstance(e, str) else e.get("keyword"))
+                if r is None or base not in r["bases"]:
+                    return False
+        return True
 
     def _expected_keys(self, h):
         st = h.world["static"]
@@ -860,7 +905,7 @@ class Runner(IOOpsMixin):
                     self._check_disk_file(m["writer"], -1, relp, final=True)
 
     # -- O-inv -------------------------------------------------------------------
-    def _check_inv_calc(self, client, i, h):
+    def _check_inv_calc(self, client, i, h, light=False):
         """invariants on a freshly constructed calculator (all components, both tensors)."""
         from cij.util import c_
         calc = h.calc
@@ -914,7 +959,9 @@ class Runner(IOOpsMixin):
                         return
                     self.probe("t_to_0_limit_checked")
         # averages and velocities on the volume base, where the adiabatic stiffness is positive definite
-        if all(k in ad_all for k in W.ORTHO9):
+        if light:
+            self.probe("inv_calc_light")
+        elif all(k in ad_all for k in W.ORTHO9):
             nt, nvv = calc.dims
             C = numpy.zeros((nt, nvv, 6, 6))
             for ks, a in ad_all.items():
